@@ -260,6 +260,20 @@ class Exec(Interp):
         it = self.ev(s.iter, fr)
         if spec is None or 'invariant' not in spec:
             seq = self.models.concrete_iter(self, it, s.iter)
+            if seq is None and isinstance(s.body[-1], ast.Break) and not any(
+                    isinstance(n, ast.Continue) for b in s.body for n in ast.walk(b)):
+                # `for x in seq: ...; break` executes its body at most once: exact, no invariant needed
+                sl = self.models.as_seq(self, it, s.iter)
+                from .models import InfLen
+                if sl.n is InfLen or self.ctx.branch(to_int(sl.n) > 0):
+                    self.assign(s.target, sl.elem(z3.IntVal(0)), fr)
+                    try:
+                        self.block(s.body, fr)
+                    except BreakEx:
+                        pass
+                else:
+                    self.block(s.orelse, fr)
+                return
             if seq is None:
                 bound = (spec or {}).get('unroll')
                 if bound is None:
@@ -314,9 +328,12 @@ class Exec(Interp):
             self.ghost[kname] = v
             self.ghost['_G_k'] = v
 
+        from .models import InfLen
+        infinite = seq is not None and seq.n is InfLen
+
         def eval_invs(frame):
             out = []
-            if seq is not None:
+            if seq is not None and not infinite:
                 out.append(('range', zand(to_int(self.ghost[kname]) >= 0,
                                           to_int(self.ghost[kname]) <= to_int(seq.n))))
             for i, x in enumerate(invs):
@@ -337,7 +354,9 @@ class Exec(Interp):
         for i, g in eval_invs(fr):
             self.ctx.assume(self.as_goal(g))
         # guard
-        if seq is not None:
+        if infinite:
+            enter = True
+        elif seq is not None:
             enter = self.ctx.branch(to_int(kv) < to_int(seq.n))
         else:
             t = self.truth(self.ev(s.test, fr))
@@ -365,7 +384,7 @@ class Exec(Interp):
             if var0 is not None:
                 var1 = to_int(self.pure_eval(gsub(spec['variant']), fr))
                 self.ctx.oblige(self.oname('variant', line), z3.And(var0 >= 0, var1 < var0), 'variant', line)
-            elif seq is None:
+            elif seq is None or infinite:
                 self.assumptions.add('termination of loop #%d of %s not proved (no variant)' % (o, self.qualname))
             raise PathEnd()
         # loop exit
